@@ -32,7 +32,7 @@ def run(rep, tier, seed, replay):
         known = set(exprs)
         exprs += [e for e in fam if e not in known]
         known = set(exprs)
-        exprs += [e for e in _gen.nested_tree_edge_family() + _gen.tree_position_family() + _gen.nest3_family(3)[::3] if e not in known]
+        exprs += [e for e in _gen.nested_tree_edge_family() + _gen.tree_position_family() + _gen.nested_middle_family() + _gen.nest3_family(3)[::3] if e not in known]
         sr = _gen.sibling_ranges_family()
         known = set(exprs)
         exprs += [e for e in (_random.Random(seed + 4).sample(sr, 600) if tier == "quick" else sr) if e not in known]
